@@ -475,6 +475,9 @@ _ANCHORS: Dict[str, Tuple[str, ...]] = {}
 # files a property's behaviour flows through although properties.jsonl does not list them (one reason each)
 _EXTRA_ANCHOR_FILES = {
     "C01": ("src/gtirb_rewriting/scopes.py", "src/gtirb_rewriting/utils.py"),   # register_insert requests: the scope decides in which blocks and at which offset a patch's bytes appear
+    "C06": ("src/gtirb_rewriting/passes.py",),            # the Function list every RewritingContext (functions_by_block) is built from comes out of PassManager.run
+    "C18": ("src/gtirb_rewriting/prepare.py",),           # integral symbols get the referent the edge retargeting matches on in prepare_for_rewriting
+    "C15": ("src/gtirb_rewriting/dwarf/_encoders.py", "src/gtirb_rewriting/dwarf/_encodable.py"),   # .cfi_escape operands are decoded there; what leaks from there leaks from the evaluator
 }
 
 
